@@ -4,6 +4,7 @@
 -/
 import Amqp.FrameBody
 import Theorems.Typed
+import Theorems.C05
 
 namespace Amqp.FrameBody
 open Amqp.Codec Amqp.Typed Amqp.Frame
@@ -62,6 +63,41 @@ theorem transfer_frame_decodes (ch : Nat) (hch : ch < 65536) (fs : List TV) (e p
     | cons _ _ => rfl
   simp only [hemp, amqp_decode.cond_if_2, Bool.false_eq_true, if_false]
   rw [typed_roundtrip_source perfTy _ hok hn e piece he]
+  simp [isTransfer]
+
+theorem decodeTyped_nil (ty : FTy) : ∃ err, decodeTyped env ty [] = .error err := by
+  unfold decodeTyped
+  have h : (match decode [] with | .ok _ => false | .error _ => true) = true := by decide +kernel
+  cases hd : decode [] with
+  | ok x => rw [hd] at h; cases h
+  | error err => exact ⟨err, rfl⟩
+
+/-- **transfer_frame_decodes_any_encoding (C06 / C20).** The same when the performative is written as a
+    peer may write it — descriptor by name or code, trailing nulls kept or not, defaults written out, any
+    width variant at every node (`typed_variants_accepted`): the payload is still exactly what follows the
+    performative.  (A decoder that found the payload by re-encoding the performative and skipping that many
+    bytes — a seeded change — is wrong for every such encoding whose length differs from ours.) -/
+theorem transfer_frame_decodes_any_encoding (ch : Nat) (hch : ch < 65536) (fs : List TV) (tch : TCh)
+    (bch : Amqp.CodecSpec.Ch) (e piece : List UInt8)
+    (hok : TVOk env perfTy (.comp transferName fs))
+    (hn : nest (toTreeV env tch (.comp transferName fs)) ≤ Amqp.Gen.Codes.MAX_NESTING_DEPTH)
+    (he : Amqp.CodecSpec.sEnc bch (toTreeV env tch (.comp transferName fs)) = some e) :
+    decodeFrame env (header ch ++ (e ++ piece)) = .frame ch (.transfer (.comp transferName fs) piece) := by
+  have hdec := typed_variants_accepted_source perfTy _ tch hok hn bch e piece he
+  unfold decodeFrame decodeFrameWith
+  rw [header_step ch hch, source_payload_of_transfer_only]
+  have hd : (header ch ++ (e ++ piece)).drop 4 = e ++ piece := by simp [header]
+  simp only [hd]
+  have hemp : (e ++ piece).isEmpty = false := by
+    cases hl : e ++ piece with
+    | nil =>
+      rw [hl] at hdec
+      obtain ⟨err, herr⟩ := decodeTyped_nil perfTy
+      rw [herr] at hdec
+      cases hdec
+    | cons _ _ => rfl
+  simp only [hemp, amqp_decode.cond_if_2, Bool.false_eq_true, if_false]
+  rw [hdec]
   simp [isTransfer]
 
 /-- **other_frame_decodes (C06).** A frame that carries any other performative decodes to that
